@@ -8,7 +8,9 @@ Line-protocol handlers for C02.
 * `c02-stack`  — the server's socket-layer event sequence of a full-stack run:
                  `listen <ep> <backlog>` · `notify <local> <remote>` · `arr <local> <remote> <chunk>` ·
                  `activate <listen-ep> <local-addr>` · `replay <local> <remote>` · `recv <local> <remote> <n>` ·
-                 `recvmsg <local> <remote>` · `handoff <k> <perm>`
+                 `recvmsg <local> <remote>` · `handoff <k> <perm>` ·
+                 `close <local> <remote>` (an active socket is closed / dropped) ·
+                 `closel <listen-ep>` (a listening socket is closed / dropped)
 -/
 namespace Driver.C02
 open Elvis.Sock
@@ -107,6 +109,19 @@ def reachable (k : Nat) (perm : List Nat) : Bool :=
   if !d.socketSendSpawns && !d.tcpSendSpawns then perm == List.range perm.length && perm.length ≤ k
   else perm.all (· < k) && perm.eraseDups.length == perm.length
 
+/-- `SocketAPI::close_socket` of a listening socket bound to `ep`: its listen binding goes, and
+so do the sessions keyed `(ep, r)` for the connection requests `r` still waiting in its backlog
+(a socket that listened on 0.0.0.0 has none under that key: its sessions carry the address the
+peer sent to).  Sessions of sockets that were already accepted stay.  (Op-language helper of the
+driver; built from the model's own `Api` fields, no model definition is involved.) -/
+def closeListener (a : Api) (ep : Endpoint) : Api :=
+  match a.bindings.find? (·.ep == ep) with
+  | none => a
+  | some b =>
+    { a with
+      bindings := a.bindings.filter (fun x => !(x.ep == ep)),
+      sessions := a.sessions.filter (fun e => !(e.1.loc == ep && b.pending.any (· == e.1.rem))) }
+
 def sstep (s : SState) (ws : List String) : SState × String :=
   match ws with
   | ["case", id] => ({}, s!"case {id}")
@@ -165,6 +180,16 @@ def sstep (s : SState) (ws : List String) : SState × String :=
         | .blocked => (s, "blocked")
         | .error => (s, "error")
     | _, _ => (s, "bad-op")
+  | ["close", l, r] =>
+    match parseEp l, parseEp r with
+    | some l, some r =>
+      let id : Endpoints := ⟨l, r⟩
+      (({ s with api := s.api.removeSession id }).setStored id none, "closed")
+    | _, _ => (s, "bad-op")
+  | ["closel", ep] =>
+    match parseEp ep with
+    | some e => ({ s with api := closeListener s.api e }, "closed")
+    | none => (s, "bad-op")
   | ["handoff", k, perm] =>
     match k.toNat?, (if perm == "-" then some [] else (perm.splitOn ",").mapM (·.toNat?)) with
     | some k, some p => (s, if reachable k p then "reachable" else "unreachable")
